@@ -12,5 +12,5 @@ CONSTANTS
   MaxResp = 3
   MaxCalls = 4
   Families = {"single"}
-  Level = "export"
+  Level = "lite"
 INVARIANT Props
